@@ -6,6 +6,8 @@ import Pixman.Lemmas.TrapRow
 import Pixman.Lemmas.TrapFill
 import Pixman.Lemmas.TrapRows
 import Pixman.Lemmas.TrapShape
+import Pixman.Lemmas.TrapTri
+import Pixman.Lemmas.TrapSetup
 import Pixman.Spec.ZeroSrc
 /-! C12 — trapezoid coverage is an exact sample count: property theorems.
 
@@ -37,118 +39,26 @@ theorem isGridRow_iff (n : Nat) (hn : Depth n) (y : Int) :
 /-- a grid row written with explicit pixel row and sub-row -/
 theorem isGridRow_mk (n : Nat) (r k : Int) (hk0 : 0 ≤ k) (hk : k < nYFrac n) :
     IsGridRow n (r * 65536 + yFracFirst n + k * stepYSmall n) :=
-  ⟨r, k.toNat, by omega, by simp only [rowPos]; rw [Int.toNat_of_nonneg hk0]⟩
+  Pixman.Lemmas.TrapSetup.isGridRow_mk n r k hk0 hk
 
 theorem sampleCeilY_grid (n : Nat) (hn : Depth n) (y : Int) (h : y ≤ 2147418112 + yFracLast n) :
-    IsGridRow n (sampleCeilY y n) ∧ y ≤ sampleCeilY y n ∧ ∀ g, IsGridRow n g → y ≤ g → sampleCeilY y n ≤ g := by
-  have key : ∃ r k : Int, 0 ≤ k ∧ k < nYFrac n ∧ sampleCeilY y n = r * 65536 + yFracFirst n + k * stepYSmall n ∧
-      y ≤ sampleCeilY y n ∧
-      (∀ r' k' : Int, 0 ≤ k' → k' < nYFrac n → y ≤ r' * 65536 + yFracFirst n + k' * stepYSmall n →
-        sampleCeilY y n ≤ r' * 65536 + yFracFirst n + k' * stepYSmall n) := by
-    rcases hn with h | h | h <;> subst h <;>
-    simp only [sampleCeilY, fixedFrac, fixedFloor, fixedToInt, yFracFirst, yFracLast, stepYSmall, nYFrac, beq_iff_eq] at *
-    all_goals
-      generalize hq : (y % 65536 - _ + (_ - 1)) / _ = q
-      have hq1 := hq
-      have he : (y - y % 65536) / 65536 = y / 65536 := by omega
-      rw [he]
-      split
-      · split
-        · omega
-        · refine ⟨y / 65536 + 1, 0, by omega, by omega, by omega, by omega, ?_⟩
-          intro r' k' h1 h2 h3
-          by_cases hr : r' ≤ y / 65536 - 1
-          · omega
-          · by_cases hr2 : r' ≤ y / 65536
-            · omega
-            · omega
-      · refine ⟨y / 65536, q, by omega, by omega, by omega, by omega, ?_⟩
-        intro r' k' h1 h2 h3
-        by_cases hr : r' ≤ y / 65536 - 1
-        · omega
-        · by_cases hr2 : r' ≤ y / 65536
-          · omega
-          · omega
-  obtain ⟨r, k, hk0, hk, heq, hge, hmin⟩ := key
-  refine ⟨heq ▸ isGridRow_mk n r k hk0 hk, hge, ?_⟩
-  rintro g ⟨r', k', hk', rfl⟩ hyg
-  exact hmin r' k' (by omega) hk' hyg
+    IsGridRow n (sampleCeilY y n) ∧ y ≤ sampleCeilY y n ∧ ∀ g, IsGridRow n g → y ≤ g → sampleCeilY y n ≤ g :=
+  Pixman.Lemmas.TrapSetup.sampleCeilY_grid n hn y h
 
 theorem sampleCeilY_saturates (n : Nat) (hn : Depth n) (y : Int) (h : 2147418112 + yFracLast n < y)
-    (h2 : y ≤ 2147483647) : sampleCeilY y n = 2147483647 := by
-  rcases hn with h | h | h <;> subst h <;>
-  simp only [sampleCeilY, fixedFrac, fixedFloor, fixedToInt, yFracFirst, yFracLast, stepYSmall, beq_iff_eq] at *
-  all_goals
-    generalize hq : (y % 65536 - _ + (_ - 1)) / _ = q
-    have hq1 := hq
-    have he : (y - y % 65536) / 65536 = y / 65536 := by omega
-    rw [he]
-    split
-    · split <;> omega
-    · omega
+    (h2 : y ≤ 2147483647) : sampleCeilY y n = 2147483647 :=
+  Pixman.Lemmas.TrapSetup.sampleCeilY_saturates n hn y h h2
 
 theorem sampleFloorY_grid (n : Nat) (hn : Depth n) (y : Int) (h : -2147483648 + yFracFirst n < y) (h2 : y ≤ 2147483647) :
-    IsGridRow n (sampleFloorY y n) ∧ sampleFloorY y n < y ∧ ∀ g, IsGridRow n g → g < y → g ≤ sampleFloorY y n := by
-  have key : ∃ r k : Int, 0 ≤ k ∧ k < nYFrac n ∧ sampleFloorY y n = r * 65536 + yFracFirst n + k * stepYSmall n ∧
-      sampleFloorY y n < y ∧
-      (∀ r' k' : Int, 0 ≤ k' → k' < nYFrac n → r' * 65536 + yFracFirst n + k' * stepYSmall n < y →
-        r' * 65536 + yFracFirst n + k' * stepYSmall n ≤ sampleFloorY y n) := by
-    rcases hn with h | h | h <;> subst h <;>
-    simp only [sampleFloorY, wrap32, fixedFrac, fixedFloor, fixedToInt, yFracFirst, yFracLast, stepYSmall, nYFrac, beq_iff_eq] at *
-    all_goals
-      generalize hq : (y % 65536 - 1 - _) / _ = q
-      have hq1 := hq
-      have he : (y - y % 65536) / 65536 = y / 65536 := by omega
-      rw [he]
-      split
-      · split
-        · omega
-        · have hw : (y - y % 65536 - 65536 + 2147483648) % 4294967296 - 2147483648 = y - y % 65536 - 65536 := by omega
-          rw [hw]
-          first
-            | refine ⟨y / 65536 - 1, 0, by omega, by omega, by omega, by omega, ?_⟩
-            | refine ⟨y / 65536 - 1, 2, by omega, by omega, by omega, by omega, ?_⟩
-            | refine ⟨y / 65536 - 1, 14, by omega, by omega, by omega, by omega, ?_⟩
-          all_goals
-            intro r' k' h1 h2 h3
-            by_cases hr : r' ≤ y / 65536 - 1
-            · omega
-            · by_cases hr2 : r' ≤ y / 65536
-              · omega
-              · omega
-      · refine ⟨y / 65536, q, by omega, by omega, by omega, by omega, ?_⟩
-        intro r' k' h1 h2 h3
-        by_cases hr : r' ≤ y / 65536 - 1
-        · omega
-        · by_cases hr2 : r' ≤ y / 65536
-          · omega
-          · omega
-  obtain ⟨r, k, hk0, hk, heq, hge, hmin⟩ := key
-  refine ⟨heq ▸ isGridRow_mk n r k hk0 hk, hge, ?_⟩
-  rintro g ⟨r', k', hk', rfl⟩ hyg
-  exact hmin r' k' (by omega) hk' hyg
+    IsGridRow n (sampleFloorY y n) ∧ sampleFloorY y n < y ∧ ∀ g, IsGridRow n g → g < y → g ≤ sampleFloorY y n :=
+  Pixman.Lemmas.TrapSetup.sampleFloorY_grid n hn y h h2
 
 /-- saturation at the bottom of the range: no grid row below `y` is representable; the result is
     `INT32_MIN`, which lies below every grid row -/
 theorem sampleFloorY_saturates (n : Nat) (hn : Depth n) (y : Int) (h1 : -2147483648 ≤ y)
     (h : y ≤ -2147483648 + yFracFirst n) :
-    sampleFloorY y n = -2147483648 ∧ ∀ g, IsGridRow n g → -2147483648 ≤ g → sampleFloorY y n < g := by
-  have hv : sampleFloorY y n = -2147483648 := by
-    rcases hn with h | h | h <;> subst h <;>
-    simp only [sampleFloorY, wrap32, fixedFrac, fixedFloor, fixedToInt, yFracFirst, yFracLast, stepYSmall, beq_iff_eq] at *
-    all_goals
-      generalize hq : (y % 65536 - 1 - _) / _ = q
-      have hq1 := hq
-      have he : (y - y % 65536) / 65536 = y / 65536 := by omega
-      rw [he]
-      split
-      · split <;> omega
-      · omega
-  refine ⟨hv, ?_⟩
-  intro g hg hg0
-  rw [hv]
-  rw [isGridRow_iff n hn] at hg
-  rcases hn with h | h | h <;> subst h <;> simp only [yFracFirst, yFracLast, stepYSmall] at hg <;> omega
+    sampleFloorY y n = -2147483648 ∧ ∀ g, IsGridRow n g → -2147483648 ≤ g → sampleFloorY y n < g :=
+  Pixman.Lemmas.TrapSetup.sampleFloorY_saturates n hn y h1 h
 
 /-- After repair a0ed323 no runaway / out-of-image row is reachable: whenever the row loop is entered
     (`b ≥ t`) for a clamped top `T ≥ 0` and a bottom `B` whose pixel row is inside the image (what
@@ -160,21 +70,8 @@ theorem sampleRows_in_image (n : Nat) (hn : Depth n) (height T B : Int)
     (hT : 0 ≤ T ∧ T ≤ 2147483647) (hB : -2147483648 ≤ B ∧ B ≤ 2147483647) (hBh : B / 65536 < height)
     (hrun : sampleFloorY B n ≥ sampleCeilY T n) :
     IsGridRow n (sampleCeilY T n) ∧ IsGridRow n (sampleFloorY B n) ∧ 0 ≤ sampleCeilY T n / 65536 ∧
-    sampleFloorY B n / 65536 < height := by
-  have hcge : T ≤ sampleCeilY T n := by
-    by_cases h : T ≤ 2147418112 + yFracLast n
-    · exact (sampleCeilY_grid n hn T h).2.1
-    · rw [sampleCeilY_saturates n hn T (by omega) hT.2]; omega
-  by_cases hb : -2147483648 + yFracFirst n < B
-  · obtain ⟨hbg, hblt, _⟩ := sampleFloorY_grid n hn B hb hB.2
-    by_cases ht : T ≤ 2147418112 + yFracLast n
-    · obtain ⟨htg, _, _⟩ := sampleCeilY_grid n hn T ht
-      refine ⟨htg, hbg, by omega, ?_⟩
-      have : sampleFloorY B n / 65536 ≤ B / 65536 := Int.ediv_le_ediv (by decide) (by omega)
-      omega
-    · rw [sampleCeilY_saturates n hn T (by omega) hT.2] at hrun; omega
-  · have := (sampleFloorY_saturates n hn B hB.1 (by omega)).1
-    omega
+    sampleFloorY B n / 65536 < height :=
+  Pixman.Lemmas.TrapSetup.sampleRows_in_image n hn height T B hT hB hBh hrun
 
 example : sampleFloorY (-2147483647) 8 = -2147483648 := by decide
 example : sampleCeilY 2147483000 8 = 2147483647 := by decide
@@ -525,6 +422,69 @@ example :
     (fun g _ h1 h2 => ⟨Or.inr (Or.inr ⟨⟨rfl, rfl, rfl⟩, by decide⟩), Or.inr (Or.inl ⟨rfl, by decide⟩)⟩)
     (fun h => absurd h (by decide))
 
+/-! ## R3 at the entry points — `pixman_rasterize_trapezoid`, `pixman_add_traps` (offsets 0)
+
+  `firstRow`/`lastRow`: the first and last sample row as the entry points compute them.  `InitOK n t e`: the
+  no-overflow conditions of `pixman_edge_init` for the line `e` started at row `t` (those of `edgeInit_inv`)
+  and the condition under which `pixman_edge_step` loses nothing: a right-leaning line walked downwards from
+  above `t` (or a left-leaning one walked upwards) starts at its top or has integral slope.  `RowsOK n t b e`: on every sample row the abscissa fits an `int` and the
+  line misses the lattice points, or leans left, or has integral slope and is walked downwards.
+  Under these hypotheses (the region in which the library has no finding T01…) the whole pipeline
+  `sample_ceil_y/floor_y → edge_init ×2 → rasterize_edges` adds exactly `Spec.addShape`.
+  Not covered: offsets ≠ 0 (a translation of all coordinates when nothing wraps) and the case in which
+  no sample row is inside (nothing is drawn) — both covered by the correspondence and the Spec oracle. -/
+
+open Pixman.Lemmas.TrapShape Pixman.Lemmas.TrapSetup Pixman.Lemmas.TrapTri in
+theorem rasterizeTrapezoid_eq_addShape (n : Nat) (hn : Depth n) (img : Img) (hwf : ImgWF n img)
+    (hh : img.height ≤ 32767) (tr : Trapezoid) (hv : tr.valid = true)
+    (htop : InI32 tr.top) (hbot : InI32 tr.bottom)
+    (hc : InI32 tr.left.p1.x ∧ InI32 tr.left.p1.y ∧ InI32 tr.left.p2.x ∧ InI32 tr.left.p2.y ∧
+          InI32 tr.right.p1.x ∧ InI32 tr.right.p1.y ∧ InI32 tr.right.p2.x ∧ InI32 tr.right.p2.y)
+    (hbt : lastRow n img.height tr.bottom ≥ firstRow n tr.top)
+    (hl : InitOK n (firstRow n tr.top) (lineOf tr.left)) (hr : InitOK n (firstRow n tr.top) (lineOf tr.right))
+    (hlr : RowsOK n (firstRow n tr.top) (lastRow n img.height tr.bottom) (lineOf tr.left))
+    (hrr : RowsOK n (firstRow n tr.top) (lastRow n img.height tr.bottom) (lineOf tr.right))
+    (hx1 : X1Ok n (firstRow n tr.top) (lastRow n img.height tr.bottom) (lineOf tr.left).snapX (lineOf tr.right).snapX) :
+    rasterizeTrapezoid n img tr 0 0 = { img with rows := addShape n img.width img.height img.rows (shapeOf tr) } :=
+  Pixman.Lemmas.TrapSetup.rasterizeTrapezoid_eq_addShape n hn img hwf hh tr hv htop hbot hc hbt hl hr hlr hrr hx1
+
+open Pixman.Lemmas.TrapShape Pixman.Lemmas.TrapSetup in
+/-- `pixman_add_traps`: one `pixman_trap_t` (`top = {l, r, y}`, `bot = {l, r, y}`; no validity test in the code) -/
+theorem addTrap_eq_addShape (n : Nat) (hn : Depth n) (img : Img) (hwf : ImgWF n img)
+    (hh : img.height ≤ 32767) (tr : Trap)
+    (hc : InI32 tr.topL ∧ InI32 tr.topR ∧ InI32 tr.topY ∧ InI32 tr.botL ∧ InI32 tr.botR ∧ InI32 tr.botY)
+    (hbt : lastRow n img.height tr.botY ≥ firstRow n tr.topY)
+    (hl : InitOK n (firstRow n tr.topY) (trapShape tr).left) (hr : InitOK n (firstRow n tr.topY) (trapShape tr).right)
+    (hlr : RowsOK n (firstRow n tr.topY) (lastRow n img.height tr.botY) (trapShape tr).left)
+    (hrr : RowsOK n (firstRow n tr.topY) (lastRow n img.height tr.botY) (trapShape tr).right)
+    (hx1 : X1Ok n (firstRow n tr.topY) (lastRow n img.height tr.botY) (trapShape tr).left.snapX (trapShape tr).right.snapX) :
+    addTrap n img 0 0 tr = { img with rows := addShape n img.width img.height img.rows (trapShape tr) } :=
+  Pixman.Lemmas.TrapSetup.addTrap_eq_addShape n hn img hwf hh tr hc hbt hl hr hlr hrr hx1
+
+open Pixman.Lemmas.TrapShape Pixman.Lemmas.TrapSetup in
+/-- non-vacuity: an a8 image of 4×2 pixels and the `pixman_trap_t` with top span `[40000, 200000]` at `y = 0` and
+    bottom span `[40000, 150000]` at `y = 131072` (vertical left edge, left-leaning right edge) -/
+example : addTrap 8 (Img.mk' 4 2 0) 0 0 ⟨40000, 200000, 0, 40000, 150000, 131072⟩ =
+    { Img.mk' 4 2 0 with rows := (addShape 8 4 2 (Img.mk' 4 2 0).rows (trapShape ⟨40000, 200000, 0, 40000, 150000, 131072⟩)) } := by
+  have ht : firstRow 8 0 = 2185 := by decide
+  have hb : lastRow 8 ((Img.mk' 4 2 0).height : Int) 131072 = 128887 := by decide
+  have hgrid : ∀ g, IsGridRow 8 g → 2185 ≤ g → g ≤ 128887 → 0 ≤ g ∧ g ≤ 131072 := fun g _ h1 h2 => by omega
+  apply Pixman.Props.C12.addTrap_eq_addShape 8 (Or.inr (Or.inr rfl)) (Img.mk' 4 2 0) (imgWF_mk' 8 4 2 0 (by decide) (by decide))
+    (by decide) ⟨40000, 200000, 0, 40000, 150000, 131072⟩
+  · simp only [InI32]; decide
+  · simp only [ht, hb]; decide
+  · simp only [ht, trapShape]
+    exact ⟨by decide, by decide, by decide, by decide, by decide, by decide, by decide⟩
+  · simp only [ht, trapShape]
+    exact ⟨by decide, by decide, by decide, by decide, by decide, by decide, by decide⟩
+  · simp only [ht, hb, trapShape]
+    exact ⟨fun g _ h1 h2 => by simp only [FitAt, lineNum]; omega,
+           fun g _ h1 h2 => Or.inr (Or.inr ⟨by decide, by decide⟩)⟩
+  · simp only [ht, hb, trapShape]
+    exact ⟨fun g _ h1 h2 => by simp only [FitAt, lineNum]; omega,
+           fun g _ h1 h2 => Or.inr (Or.inl (by decide))⟩
+  · exact fun h => absurd h (by decide)
+
 /-! ## R4 — abutting shapes tile seamlessly (consequences of "each sample is in exactly one")
 
   Stated on the Spec counts (`rowCount`, `pixelCount`) and, through R3, on the model's rows.
@@ -564,6 +524,55 @@ theorem row8_abut (row : Array Nat) (width : Nat) (lx mx rx : Int) (hsize : row.
     pixelValue_add, rowCount_split 8 lx mx rx i h1 h2]
 
 example : pixelCount 8 ⟨0, 131072, ⟨0, 0, 0, 131072⟩, ⟨98304, 0, 32768, 131072⟩⟩ 1 0 = 64 := by decide
+
+/-! ## R5 — `triangle_to_trapezoids`: the two trapezoids tile the triangle
+
+  Spec (`Spec/SampleGrid.lean`): `triInside` is the triangle's own inside test — a sample is inside when,
+  on its sample row, it lies between two sides of the triangle crossing that row (left inclusive, right
+  exclusive; a side crosses the rows `yTop ≤ sy < yBot`), symmetric in the three vertices, no
+  decomposition.  `tzCount` is the Spec count of a trapezoid as `pixman_add_trapezoids` treats it
+  (`pixelCount` of its shape when `pixman_trapezoid_valid`, 0 otherwise).
+  The theorem covers every vertex order (the three conditional swaps: sort by `(y, x)`, left/right by
+  the sign of the cross product) and the triangles with a horizontal side.  Hypotheses: the
+  coordinate differences `clockwise` computes in `pixman_fixed_t` do not wrap (`TriFits`), and the
+  vertices are not collinear (`area2 ≠ 0`).  For collinear vertices the statement is FALSE for this
+  Spec: a lattice tie of the walker's snapping (`snapX`) at the middle vertex makes the two
+  coincident sides differ by one lattice unit, `triInside` then holds one sample that the code's
+  left/right assignment leaves out (both draw nothing else). -/
+
+open Pixman.Lemmas.TrapTri in
+theorem triangle_tiles (n : Nat) (tri : Triangle) (hf : TriFits tri) (hnd : area2 tri ≠ 0) (c r : Int) :
+    triCount n (triOf tri) c r =
+      tzCount n (triangleToTrapezoids tri).1 c r + tzCount n (triangleToTrapezoids tri).2 c r :=
+  Pixman.Lemmas.TrapTri.triangle_tiles n tri hf hnd c r
+
+open Pixman.Lemmas.TrapTri in
+/-- sample by sample: inside the triangle ⇔ inside exactly one of the two trapezoids -/
+theorem triangle_inside_iff (tri : Triangle) (hf : TriFits tri) (hnd : area2 tri ≠ 0) (sy sx : Int) :
+    triInside (triOf tri) sy sx =
+      (tzInside (triangleToTrapezoids tri).1 sy sx || tzInside (triangleToTrapezoids tri).2 sy sx) ∧
+    ¬ (tzInside (triangleToTrapezoids tri).1 sy sx = true ∧ tzInside (triangleToTrapezoids tri).2 sy sx = true) := by
+  have hs := sortTri_sorted tri hf hnd
+  rw [triangleToTrapezoids_eq, ← sortTri_inside]
+  exact inside_sorted _ _ _ hs sy sx
+
+/-- `pixman_add_triangles` is `pixman_add_trapezoids` of the decompositions (the model mirrors the code) -/
+theorem addTriangles_eq (n : Nat) (img : Img) (xOff yOff : Int) (tris : List Triangle) :
+    addTriangles n img xOff yOff tris =
+      addTrapezoids n img xOff yOff (tris.flatMap fun t => [(triangleToTrapezoids t).1, (triangleToTrapezoids t).2]) := rfl
+
+/-- non-vacuity: a triangle given with its lowest vertex first and clockwise (all three swaps happen),
+    one side horizontal -/
+example :
+    Pixman.Lemmas.TrapTri.TriFits ⟨⟨196608, 262144⟩, ⟨262144, 65536⟩, ⟨65536, 65536⟩⟩ ∧
+    Pixman.Lemmas.TrapTri.area2 ⟨⟨196608, 262144⟩, ⟨262144, 65536⟩, ⟨65536, 65536⟩⟩ ≠ 0 ∧
+    triangleToTrapezoids ⟨⟨196608, 262144⟩, ⟨262144, 65536⟩, ⟨65536, 65536⟩⟩ =
+      (⟨65536, 65536, ⟨⟨65536, 65536⟩, ⟨196608, 262144⟩⟩, ⟨⟨65536, 65536⟩, ⟨262144, 65536⟩⟩⟩,
+       ⟨65536, 262144, ⟨⟨65536, 65536⟩, ⟨196608, 262144⟩⟩, ⟨⟨262144, 65536⟩, ⟨196608, 262144⟩⟩⟩) := by
+  refine ⟨?_, ?_, ?_⟩
+  · simp only [Pixman.Lemmas.TrapTri.TriFits]; decide
+  · simp only [Pixman.Lemmas.TrapTri.area2]; decide
+  · decide
 
 /-! ## R6 — the regenerated `zero_src_has_no_effect` table
 
